@@ -140,7 +140,7 @@ thread_local! {
 
 pub fn install_panic_hook() {
     std::panic::set_hook(Box::new(|info| {
-        let loc = info
+        let mut loc = info
             .location()
             .map(|l| format!("{}:{}", l.file(), l.line()))
             .unwrap_or_else(|| "?".into());
@@ -151,15 +151,48 @@ pub fn install_panic_hook() {
         } else {
             "<non-string panic payload>".into()
         };
-        LAST_PANIC.with(|p| *p.borrow_mut() = Some((loc, msg)));
+        // find the innermost frame inside /repo (site of the defect) and its function name
+        let bt = std::backtrace::Backtrace::force_capture().to_string();
+        let mut prev_sym = String::new();
+        let mut func = String::new();
+        let mut repo_loc = String::new();
+        for line in bt.lines() {
+            let t = line.trim();
+            if let Some(rest) = t.strip_prefix("at ") {
+                if rest.starts_with("/repo/") && func.is_empty() {
+                    func = prev_sym.clone();
+                    // strip column
+                    let mut parts: Vec<&str> = rest.rsplitn(2, ':').collect();
+                    parts.reverse();
+                    repo_loc = parts[0].to_string();
+                }
+            } else if let Some((_, sym)) = t.split_once(": ") {
+                prev_sym = sym.to_string();
+            }
+        }
+        if !loc.starts_with("/repo/") && !loc.contains("/verif/engine/") && !repo_loc.is_empty() {
+            loc = repo_loc;
+        }
+        // short function name: last two path segments without generics/hash
+        let short = func.split("::").filter(|p| !p.starts_with('h') || p.len() != 17).collect::<Vec<_>>();
+        let short = short.iter().rev().take(2).rev().cloned().collect::<Vec<_>>().join("::");
+        let short: String = short.chars().filter(|c| c.is_alphanumeric() || *c == '_' || *c == ':').take(60).collect();
+        LAST_PANIC.with(|p| *p.borrow_mut() = Some((format!("{loc}#{short}"), msg)));
     }));
 }
 
 /// Normalise a panic message: digits -> N so that the signature is stable over inputs
 pub fn normalise_msg(msg: &str) -> String {
+    // drop input-dependent tails
+    let mut m = msg;
+    for cut in ["; it is inside", " of `", ": `", " (bytes "] {
+        if let Some(p) = m.find(cut) {
+            m = &m[..p];
+        }
+    }
     let mut out = String::new();
     let mut in_num = false;
-    for c in msg.chars().take(160) {
+    for c in m.chars().take(90) {
         if c.is_ascii_digit() {
             if !in_num {
                 out.push('N');
@@ -187,15 +220,18 @@ pub fn guarded<T>(f: impl FnOnce() -> T) -> Result<T, (String, String)> {
     }
 }
 
-/// Signature for a panic: file (without line number) + normalised message
+/// Signature for a panic: file (without line number) + function + normalised message
 pub fn panic_sig(loc: &str, msg: &str) -> String {
-    let file = loc.rsplit_once(':').map(|x| x.0).unwrap_or(loc);
+    let (place, func) = loc.split_once('#').unwrap_or((loc, ""));
+    let file = place.rsplit_once(':').map(|x| x.0).unwrap_or(place);
     let file = file.strip_prefix("/repo/").unwrap_or(file);
-    format!("panic@{}:{}", file, normalise_msg(msg))
+    format!("panic@{}:{}:{}", file, func, normalise_msg(msg))
 }
 
 pub fn panic_is_harness(loc: &str) -> bool {
-    loc.contains("/verif/engine/")
+    // the hook remaps std/dependency panics to the innermost /repo frame; no /repo frame at all
+    // means the panic is the engine's own
+    !loc.starts_with("/repo/")
 }
 
 // ---------------------------------------------------------------------------------------------
@@ -225,6 +261,8 @@ pub struct Ctx {
     /// wall-clock budget after which streams stop generating (reported as truncated)
     pub deadline: Option<Instant>,
     last_lazy: Option<u64>,
+    /// failures whose signature matches are counted as resource-exhaustion events, not reported
+    pub resource_filter: Option<fn(&str) -> bool>,
 }
 
 fn now_ms(t0: Instant) -> u64 {
@@ -349,8 +387,18 @@ impl Ctx {
         }
         self.last_lazy = Some(h);
         if let Some(f) = &ev.fail {
-            let c = case();
-            self.push_failure(&c, f, false);
+            if self.resource_filter.map(|flt| flt(&f.sig)).unwrap_or(false) {
+                self.st.resource_events += 1;
+                if self.st.notes.len() < 30 {
+                    let c = case().to_string();
+                    let tail: String = c.chars().rev().take(160).collect::<Vec<_>>().into_iter().rev().collect();
+                    self.st.notes.push(format!("not judged [{}]: …{}", sig_class(&f.sig), tail));
+                }
+                *self.st.classes.entry(format!("not-judged:{}", sig_class(&f.sig).chars().take(40).collect::<String>())).or_insert(0) += 1;
+            } else {
+                let c = case();
+                self.push_failure(&c, f, false);
+            }
         }
     }
 
@@ -511,6 +559,160 @@ impl Ctx {
         }
     }
 
+    /// Evaluate one case in a forked child process: aborts, stack overflows, allocation failures and
+    /// hangs of the code under test end the child only. `timeout_ms` bounds the case.
+    pub fn run_case_forked(&mut self, case: &Value, timeout_ms: u64, f: impl FnOnce() -> Eval) -> Option<Eval> {
+        self.seqno += 1;
+        if self.seqno <= self.resume_after || self.skip.contains(&self.seqno) {
+            return None;
+        }
+        self.write_inflight(case);
+        let ev = self.forked_eval(timeout_ms, f);
+        self.record(case, &ev);
+        if !ev.discard {
+            self.st.last = Some(case.clone());
+        }
+        self.st.seqno_done = self.seqno;
+        self.maybe_checkpoint(false);
+        Some(ev)
+    }
+
+    pub fn forked_eval(&mut self, timeout_ms: u64, f: impl FnOnce() -> Eval) -> Eval {
+        let errpath = self.rundir.join(format!("shard{}.child.stderr", self.shard));
+        let mut fds = [0i32; 2];
+        unsafe {
+            if libc::pipe(fds.as_mut_ptr()) != 0 {
+                return Eval { discard: true, ..Default::default() };
+            }
+        }
+        let pid = unsafe { libc::fork() };
+        if pid < 0 {
+            unsafe {
+                libc::close(fds[0]);
+                libc::close(fds[1]);
+            }
+            self.st.harness_errors.push("fork failed".into());
+            return Eval { discard: true, ..Default::default() };
+        }
+        if pid == 0 {
+            // child
+            unsafe {
+                libc::close(fds[0]);
+                if let Ok(cpath) = std::ffi::CString::new(errpath.to_string_lossy().as_bytes()) {
+                    let fd = libc::open(cpath.as_ptr(), libc::O_WRONLY | libc::O_CREAT | libc::O_TRUNC, 0o644);
+                    if fd >= 0 {
+                        libc::dup2(fd, 2);
+                        libc::close(fd);
+                    }
+                }
+            }
+            let r = guarded(f);
+            let ev = match r {
+                Ok(ev) => ev,
+                Err((loc, msg)) => {
+                    if panic_is_harness(&loc) {
+                        let mut e = Eval { discard: true, ..Default::default() };
+                        e.fail = Some(Fail::new("harness", format!("harness panic at {loc}: {msg}")));
+                        e
+                    } else {
+                        Eval::failed(panic_sig(&loc, &msg), format!("panic at {loc}: {msg}"))
+                    }
+                }
+            };
+            let body = serde_json::to_vec(&json!({
+                "fail": ev.fail, "nontrivial": ev.nontrivial, "classes": ev.classes, "discard": ev.discard
+            }))
+            .unwrap_or_default();
+            unsafe {
+                let mut off = 0;
+                while off < body.len() {
+                    let n = libc::write(fds[1], body[off..].as_ptr() as *const libc::c_void, body.len() - off);
+                    if n <= 0 {
+                        break;
+                    }
+                    off += n as usize;
+                }
+                libc::_exit(0);
+            }
+        }
+        // parent
+        unsafe { libc::close(fds[1]) };
+        let t0 = Instant::now();
+        let mut buf: Vec<u8> = Vec::new();
+        unsafe {
+            let flags = libc::fcntl(fds[0], libc::F_GETFL);
+            libc::fcntl(fds[0], libc::F_SETFL, flags | libc::O_NONBLOCK);
+        }
+        let mut status: i32 = 0;
+        let mut hang = false;
+        let mut tmp = [0u8; 65536];
+        let mut sleep_us = 20u64;
+        loop {
+            let n = unsafe { libc::read(fds[0], tmp.as_mut_ptr() as *mut libc::c_void, tmp.len()) };
+            if n > 0 {
+                buf.extend_from_slice(&tmp[..n as usize]);
+                continue;
+            }
+            let w = unsafe { libc::waitpid(pid, &mut status, libc::WNOHANG) };
+            if w == pid {
+                // drain
+                loop {
+                    let n = unsafe { libc::read(fds[0], tmp.as_mut_ptr() as *mut libc::c_void, tmp.len()) };
+                    if n > 0 {
+                        buf.extend_from_slice(&tmp[..n as usize]);
+                    } else {
+                        break;
+                    }
+                }
+                break;
+            }
+            if t0.elapsed() > Duration::from_millis(timeout_ms) {
+                unsafe {
+                    libc::kill(pid, libc::SIGKILL);
+                    libc::waitpid(pid, &mut status, 0);
+                }
+                hang = true;
+                break;
+            }
+            std::thread::sleep(Duration::from_micros(sleep_us));
+            sleep_us = (sleep_us * 2).min(2000);
+        }
+        unsafe { libc::close(fds[0]) };
+        if hang {
+            return Eval::failed("hang", format!("case did not finish within {timeout_ms} ms"));
+        }
+        let exited_ok = libc::WIFEXITED(status) && libc::WEXITSTATUS(status) == 0;
+        if exited_ok {
+            if let Ok(v) = serde_json::from_slice::<Value>(&buf) {
+                let fail: Option<Fail> = serde_json::from_value(v["fail"].clone()).ok().flatten();
+                let discard = v["discard"].as_bool().unwrap_or(false);
+                if discard {
+                    if let Some(f) = &fail {
+                        if self.st.harness_errors.len() < 10 {
+                            self.st.harness_errors.push(f.detail.clone());
+                        }
+                    }
+                    return Eval { discard: true, ..Default::default() };
+                }
+                let classes = v["classes"].as_array().map(|a| a.iter().filter_map(|x| x.as_str()).map(intern).collect()).unwrap_or_default();
+                return Eval { fail, nontrivial: v["nontrivial"].as_bool().unwrap_or(false), classes, discard: false };
+            }
+        }
+        let tail = std::fs::read(&errpath).map(|b| String::from_utf8_lossy(&b).to_string()).unwrap_or_default();
+        let tail: String = tail.chars().rev().take(1200).collect::<Vec<_>>().into_iter().rev().collect();
+        let sig = if tail.contains("memory allocation of") || tail.contains("capacity overflow") {
+            "crash:alloc-failure".to_string()
+        } else if tail.contains("has overflowed its stack") {
+            "crash:stack-overflow".to_string()
+        } else if libc::WIFSIGNALED(status) {
+            let msg = tail.lines().rev().find(|l| !l.trim().is_empty()).unwrap_or("");
+            format!("abort:signal{}:{}", libc::WTERMSIG(status), normalise_msg(msg))
+        } else {
+            format!("abort:exit{}", libc::WEXITSTATUS(status))
+        };
+        Eval::failed(sig, format!("child process ended abnormally (status {status}); stderr tail: {tail}"))
+    }
+
     /// Replace the most recent failure for `orig_case` by a smaller failing case found by a
     /// property-specific delta pass.
     pub fn replace_failure(&mut self, orig_case: &Value, new_case: Value, f: Fail) {
@@ -526,6 +728,18 @@ impl Ctx {
         self.write_inflight(case);
         self.guarded_eval(f)
     }
+}
+
+pub fn intern(s: &str) -> &'static str {
+    use std::sync::Mutex;
+    static TABLE: Mutex<Vec<&'static str>> = Mutex::new(Vec::new());
+    let mut t = TABLE.lock().unwrap();
+    if let Some(x) = t.iter().find(|x| **x == s) {
+        return x;
+    }
+    let leaked: &'static str = Box::leak(s.to_string().into_boxed_str());
+    t.push(leaked);
+    leaked
 }
 
 /// Two signatures are of the same class if they agree up to the first '|' (detail suffix)
@@ -622,10 +836,21 @@ pub fn shard_main(prop: &'static Prop, tier: Tier, seed: u64, shard: usize, nsha
         max_failures: 24,
         deadline: None,
         last_lazy: None,
+        resource_filter: None,
     };
-    (prop.run_shard)(&mut ctx);
-    ctx.st.done = true;
-    ctx.checkpoint();
+    let h = std::thread::Builder::new()
+        .stack_size(1 << 30)
+        .spawn(move || {
+            install_panic_hook();
+            (prop.run_shard)(&mut ctx);
+            ctx.st.done = true;
+            ctx.checkpoint();
+        })
+        .unwrap();
+    if h.join().is_err() {
+        eprintln!("harness panic in shard body");
+        std::process::exit(98);
+    }
 }
 
 pub fn set_rlimit_as(bytes: u64) {
